@@ -8,6 +8,7 @@ mod dynval;
 mod negotiate;
 mod recser;
 mod safelong;
+mod serdewrap;
 mod tokens;
 mod uri;
 mod util;
@@ -20,6 +21,7 @@ fn main() {
         "codegen-safe" => codegen::codegen_safe(rest),
         "negotiate" => negotiate::negotiate(rest),
         "uri" => uri::uri(rest),
+        "serde" => serdewrap::serdewrap(rest),
         "any" => anyval::anyval(rest),
         "tokens" => tokens::tokens(rest),
         "safelong" => safelong::safelong(rest),
